@@ -6,18 +6,18 @@ CONSTANTS
   MaxInc = 7
   LbBig = 1000
   FixRetire = FALSE
-  Routing0 = "keyp"
+  Routing0 = "rr"
   Workers0 = 2
   Lim0 <- Lim1
-  Mode0 = "oldest"
+  Mode0 = "newest"
   RlOn = FALSE
   RlRefill = 1
   RlInterval = 2
   RlMax = 1
-  JobKeys <- Keys1121
+  JobKeys <- Keys1212
   JobTtl <- NoTtl4
-  PortJobs = {2}
-  Ends = {"ok", "panic"}
+  PortJobs = {1, 3}
+  Ends = {"ok", "killmid"}
   MaxKills = 1
   MaxFaults = 1
   Resizes <- Res31
